@@ -303,22 +303,42 @@ def rule_bits(prop, repo):
     if nb is None:
         R.fail_closed("%s:bits:next" % prop, "BitIterator::next not found")
     else:
-        tb = repo.tb(nb)
-        rv = tb.return_value()
-        ok = False
-        al = alts(rv)
-        nones = [a for a in al if a[0] == "agg" and a[2] == "None"]
-        gets = [a for a in al if a[0] == "call" and a[1].name == "get_bit"]
-        if len(nones) == 1 and len(gets) == 1:
-            idx = strip(gets[0][2][1])
-            dec = idx[0] == "field" and idx[1][0] == "binop" and idx[1][1].startswith("Sub") and strip(idx[1][3]) == ("const", {"ty": "usize", "int": 1}) or (idx[0] == "field" and idx[1][0] == "binop" and idx[1][1].startswith("Sub") and idx[1][3][0] == "const" and int(idx[1][3][1]["int"]) == 1)
-            fin = tb.final_value(("deref", 1))
-            stored = any(a[0] == "update" and a[2] == (("f", 1),) and strip(a[3]) == idx for a in alts(fin))
-            # None exactly when n == 0
-            atoms = paths.collect_atoms(nb, tb)
-            ok = bool(dec and stored)
-        R.check(ok, "%s:bits:next" % prop, "BitIterator::next is not {n == 0 → None; n −= 1; get_bit(n)}: %s" % show(rv, maxdepth=4)[:200], nb.file_line(), nb.rec["path"],
-                sample={"next": "n==0 → None; n -= 1; int.get_bit(n)"})
+        # evaluated over opaque limbs for counters on both sides of every limb boundary: n == 0 → None and n stays 0;
+        # otherwise the answer is bit n−1 of the integer and the counter becomes n−1
+        from core.bytex import Machine, Adt as BAdt, Ref as BRef
+        adt = F.adts.get("crate::u256::BitIterator") or {}
+        flds = (adt.get("variants") or [{}])[0].get("fields") or []
+        int_pos = next((i for i, f in enumerate(flds) if "U256" in f.get("ty", "")), None)
+        n_pos = next((i for i, f in enumerate(flds) if f.get("ty", "").strip() == "usize"), None)
+        bad = []
+        if len(flds) != 2 or int_pos is None or n_pos is None:
+            bad.append("BitIterator is not {&U256, usize}: %s" % [f.get("ty") for f in flds])
+        else:
+            same_file = (nb.rec.get("span") or {}).get("file")
+            for k in (0, 1, 2, 63, 64, 65, 128, 129, 192, 193, 255, 256):
+                me, limbs = structured_u256(F)
+                fields = [None, None]
+                fields[int_pos] = BRef(0, 1)
+                fields[n_pos] = k
+                it = BAdt("crate::u256::BitIterator", "BitIterator", fields)
+                try:
+                    outs = Machine(F, int_layer_policy(F)).run(nb, [BRef(0, 0)], holders=[it, me])
+                except Exception as e:
+                    bad.append("n=%d not evaluated: %s" % (k, str(e)[:60]))
+                    continue
+                ans = bit_answer(outs)
+                after = set()
+                for o in outs:
+                    h = o.roots.get(0) if o.roots else None
+                    after.add(h.fields[n_pos] if isinstance(h, BAdt) and len(h.fields) == 2 else None)
+                want = ("none",) if k == 0 else ("bit", ("L", (k - 1) >> 6, (k - 1) & 63, False))
+                want_n = {0} if k == 0 else {k - 1}
+                if ans != want or after != want_n:
+                    bad.append("n=%d answers %r and leaves n=%s" % (k, ans, sorted(map(repr, after))))
+        ok = not bad
+        rv = bad[:3]
+        R.check(ok, "%s:bits:next" % prop, "BitIterator::next is not {n == 0 → None; n −= 1; bit n of the integer}: %s" % (bad[:3],), nb.file_line(), nb.rec["path"],
+                sample={"next": "n==0 → None; n -= 1; bit n", "counters_evaluated": 12})
     wb = F.bodies.get("crate::u256::U256::bits_without_leading_zeros")
     R.instance()
     if wb is None:
@@ -343,35 +363,91 @@ def rule_bits(prop, repo):
     if gb is None:
         R.fail_closed("%s:bits:get_bit" % prop, "U256::get_bit not found")
     else:
-        # for every index: Some(bit n&63 of limb n>>6) below 256, None from 256 on — over opaque limbs
-        from core.bytex import Machine, T, Tup, Adt as BAdt, Ref as BRef
+        # for every index: Some(bit n&63 of limb n>>6) below 256, None from 256 on — over opaque limbs, read off at bit granularity
+        from core.bytex import Machine, Ref as BRef
         bad = []
-        me = T("self")
         same_file = (gb.rec.get("span") or {}).get("file")
         for n in list(range(256)) + [256, 257, 1 << 20]:
-            m = Machine(F, lambda cb: (cb.rec.get("span") or {}).get("file") == same_file)
-            outs = m.run(gb, [BRef(0, 0), n], holders=[me])
-            if len(outs) == 2 and all(o.kind == "return" and len(o.pc) == 1 and o.pc[0][0] == outs[0].pc[0][0] for o in outs) and \
-                    all(isinstance(o.value, BAdt) and o.value.variant == "Some" and bool(o.value.fields[0]) == bool(o.pc[0][1]) for o in outs):
-                # the answer is an opaque predicate of the library integer: read the selected bit off the predicate
-                sel = selected_bit(outs[0].pc[0][0], me)
-                if n >= 256 or sel != (n >> 6, n & 63):
-                    bad.append((n, "answers with %r" % (outs[0].pc[0][0],)))
+            me, limbs = structured_u256(F)
+            m = Machine(F, int_layer_policy(F))
+            try:
+                outs = m.run(gb, [BRef(0, 0), n], holders=[me])
+            except Exception as e:
+                bad.append((n, "not evaluated: %s" % str(e)[:60]))
                 continue
-            if len(outs) != 1 or outs[0].kind != "return" or outs[0].pc:
-                bad.append((n, "outcomes %r" % (outs[:2],)))
-                continue
-            v = outs[0].value
-            if n >= 256:
-                if not (isinstance(v, BAdt) and v.variant == "None"):
-                    bad.append((n, "index ≥ 256 gives %r" % (v,)))
-                continue
-            sel = selected_bit(v.fields[0], me) if isinstance(v, BAdt) and v.variant == "Some" and v.fields else None
-            if sel != (n >> 6, n & 63):
-                bad.append((n, "returns %r (bit %s)" % (v, sel)))
+            ans = bit_answer(outs)
+            want = ("bit", ("L", n >> 6, n & 63, False)) if n < 256 else ("none",)
+            if ans != want:
+                bad.append((n, "answers %r: %r" % (ans, outs[:2])))
         R.check(not bad, "%s:bits:get_bit" % prop, "U256::get_bit(n) is not Some(bit n&63 of limb n>>6) for n < 256 and None beyond: %s" % bad[:3], gb.file_line(), gb.rec["path"],
                 sample={"get_bit": "all 256 indices over opaque limbs", "rows": 259})
     return R.finish()
+
+
+_INT_LAYER_WORDS = {"u8", "u16", "u32", "u64", "u128", "usize", "bool", "U256", "U512", "BigInt", "Option", "Result", "Error", "mut", "const", "crate", "u256", "u512",
+                    "ark_ff", "biginteger", "core", "option", "result", "self", "Self", "N", "BitIterator", "a", "static", "cmp", "Ordering", "arith", "MulBuffer"}
+
+
+def int_layer_policy(F):
+    """inline policy of the rules that evaluate the multi-limb integer helpers: any crate-local function whose signature is made of
+    machine integers, booleans, limb arrays / slices and the fixed-width integer types only (wherever the maintainer keeps it)"""
+    import re as _re
+
+    def pol(cb):
+        if not cb.rec.get("local", True):
+            return False
+        tys = list(cb.rec.get("inputs") or []) + [cb.rec.get("output") or ""]
+        words = set()
+        for t in tys:
+            words |= set(_re.findall(r"[A-Za-z_][A-Za-z0-9_]*", t))
+        return words <= _INT_LAYER_WORDS
+    return pol
+
+
+def structured_u256(F):
+    """a U256 whose four limbs are opaque: (value, limb terms)"""
+    from core.bytex import T, Tup, Adt as BAdt
+    adt = F.adts.get("crate::u256::U256")
+    inner_ty = adt["variants"][0]["fields"][0]["ty"] if adt and adt.get("variants") and adt["variants"][0]["fields"] else "ark_ff::BigInt<4>"
+    inner_head = inner_ty.split("<")[0]
+    limbs = Tup([T("limb", j) for j in range(4)])
+    return BAdt("crate::u256::U256", "U256", [BAdt(inner_head, inner_head.split("::")[-1], [limbs])]), limbs
+
+
+def bit_answer(outs):
+    """What a function returning bool / Option<bool> answers, read off its machine outcomes: ('none',), ('bit', provenance)
+    with provenance 0 / 1 / ('L', limb, bit, negated), or None when it cannot be read."""
+    from core.bytex import T, Adt as BAdt
+    from core import bitprov
+
+    def of_value(v):
+        if isinstance(v, BAdt) and v.name.endswith("Option"):
+            if v.variant == "None":
+                return ("none",)
+            if v.variant == "Some" and v.fields:
+                p = bitprov.boolprov(v.fields[0])
+                return ("bit", p) if p is not None else None
+            return None
+        p = bitprov.boolprov(v)
+        return ("bit", p) if p is not None else None
+    if len(outs) == 1 and outs[0].kind == "return" and not outs[0].pc:
+        return of_value(outs[0].value)
+    if len(outs) == 2 and all(o.kind == "return" and len(o.pc) == 1 for o in outs) and outs[0].pc[0][0] == outs[1].pc[0][0]:
+        # forked on one opaque predicate: the answer is that predicate (or its negation)
+        p = bitprov.boolprov(outs[0].pc[0][0])
+        if p is None:
+            return None
+        res = {}
+        for o in outs:
+            a = of_value(o.value)
+            if a is None or a[0] != "bit" or a[1] not in (0, 1):
+                return None
+            res[bool(o.pc[0][1])] = a[1]
+        if res.get(True) == 1 and res.get(False) == 0:
+            return ("bit", p)
+        if res.get(True) == 0 and res.get(False) == 1:
+            return ("bit", bitprov._neg(p))
+    return None
 
 
 def selected_bit(v, me):
@@ -412,6 +488,94 @@ def selected_bit(v, me):
                     j = limb(y)
                     return (j, mk.bit_length() - 1) if j is not None else None
     return None
+
+
+SHORTCUT_OPS = (("mul", "mul"), ("squar", "squared"), ("invers", "inverse"), ("add", "add"), ("sub", "sub"), ("neg", "neg"), ("double", "double"))
+
+
+def rule_shortcuts(prop, repo, types):
+    """Early exits of the arithmetic implementations.  A path that is taken because an operand test answered true and that
+    returns a value of a known class (zero, one, an operand, the square of an operand, None) is an algebraic shortcut; it
+    is right for every operand the test lets through only when the test implies the identity used (x·y = x² needs x = y
+    or x = 0 — comparing one component does not give that).  Paths whose test or value the table cannot read are not
+    judged."""
+    F = repo.F
+    R = Rule("R-SHORTCUT", "every early exit of a field / tower operation that returns zero, one, an operand, the square of an operand or None is guarded by an operand "
+             "test that implies the identity it uses (whole-value tests, or a test of every component)", floor=6, exhaustive=True)
+    nfields = {}
+    for ap, adt in F.adts.items():
+        vs = adt.get("variants") or []
+        if len(vs) == 1:
+            nfields[ap] = len(vs[0].get("fields") or [])
+    judged = 0
+    for b in F.fn_bodies():
+        ty = b.rec.get("impl_self_adt")
+        if ty not in types or b.rec["kind"] not in ("Fn", "AssocFn"):
+            continue
+        nm = b.name or ""
+        op = next((o for key, o in SHORTCUT_OPS if key in nm), None)
+        if op is None or nm.startswith(("is_", "from_", "to_")):
+            continue
+        ins = b.rec.get("inputs") or []
+        if not ins or not all(ty.split("::")[-1] in i for i in ins[:2]):
+            continue          # operands of another type (scalar, limb integer): not an operation of this table
+        try:
+            rows = shared.path_table(repo, b, ("deref", 1) if (b.rec.get("output") in ("()", None) and ins[0].startswith("&mut")) else 0)
+        except Exception:
+            rows = None
+        R.instance()
+        if not rows:
+            R.ok(sample=None)
+            continue
+        n = nfields.get(ty, 0)
+
+        def whole(facts, kind, k):
+            if (kind, (k, ())) in facts:
+                return True
+            return n > 0 and all((kind, (k, (i,))) in facts for i in range(n))
+
+        def equal(facts):
+            if ("eq", (1, ()), (2, ())) in facts:
+                return True
+            return n > 0 and all(("eq", (1, (i,)), (2, (i,))) in facts for i in range(n))
+        bad = []
+        for asg, val, res in rows:
+            facts = shared.algebra_facts(asg)
+            if not facts or ("other",) in facts:
+                continue
+            v = strip(val)
+            vc = shared.classify_value(v)
+            if vc is None and v[0] == "call" and len(v[2]) == 1 and any(k in v[1].name for k in ("squar",)):
+                k = shared.peel_param(v[2][0])
+                if k is not None and not k[1]:
+                    vc = ("squared", k[0])
+            if vc is None:
+                continue
+            judged += 1
+            Z = lambda k: whole(facts, "zero", k)
+            O = lambda k: whole(facts, "one", k)
+            arg = lambda k: vc == ("arg", k, ())
+            if op == "mul":
+                ok = (vc == "ZERO" and (Z(1) or Z(2))) or (arg(1) and (O(2) or Z(1))) or (arg(2) and (O(1) or Z(2))) or (vc == "ONE" and O(1) and O(2)) or \
+                     (isinstance(vc, tuple) and vc[0] == "squared" and (equal(facts) or Z(vc[1])))
+            elif op == "squared":
+                ok = (vc == "ZERO" and Z(1)) or (vc == "ONE" and O(1)) or (arg(1) and (Z(1) or O(1)))
+            elif op == "inverse":
+                ok = (vc == "NONE" and Z(1)) or (vc in (("SOME", "ONE"), ("SOME", ("arg", 1, ()))) and O(1))
+            elif op == "add":
+                ok = (arg(2) and Z(1)) or (arg(1) and Z(2)) or (vc == "ZERO" and Z(1) and Z(2))
+                if vc == "ZERO" and not ok:
+                    continue          # a + b = 0 for b = −a: not a fact this table reads
+            elif op == "sub":
+                ok = (arg(1) and Z(2)) or (vc == "ZERO" and (equal(facts) or (Z(1) and Z(2))))
+            else:
+                ok = (vc == "ZERO" or arg(1)) and Z(1)
+            if not ok:
+                bad.append("returns %s where only %s" % (show(v, maxdepth=2)[:60], sorted(facts)))
+        R.check(not bad, "%s:shortcut:%s" % (prop, b.rec["path"]), "%s takes a shortcut its operand test does not justify: %s" % (b.rec["path"], "; ".join(bad[:2])),
+                b.file_line(), b.rec["path"], sample={"fn": b.rec["path"], "op": op, "paths": len(rows)} if R.instances % 6 == 1 else None)
+    R.note("%d early exits with a readable test and value class judged" % judged)
+    return R.finish()
 
 
 def rule_limb_predicates(prop, repo):
@@ -516,7 +680,7 @@ def rule_limb_predicates(prop, repo):
         me = BAdt("crate::u256::U256", "U256", [BAdt(inner_head, inner_head.split("::")[-1], [limbs])])
         same_file = (b.rec.get("span") or {}).get("file")
         try:
-            outs = Machine(F, lambda cb: (cb.rec.get("span") or {}).get("file") == same_file).run(b, [BRef(0, 0)], holders=[me])
+            outs = Machine(F, int_layer_policy(F)).run(b, [BRef(0, 0)], holders=[me])
         except Exception as e:       # the machine could not follow the body: nothing decided, nothing alleged
             R.note("%s: not evaluated (%s)" % (path, str(e)[:80]))
             R.ok(path, sample={"fn": path, "decided": False})
